@@ -256,6 +256,25 @@ def tree_case(rep, drv, rng, th):
 			rep.count('tree:serial-vs-tree')
 		except Exception as e:
 			bad.append('serial algorithm raised %s' % err_enum(e))
+	# a tree that has been pre-processed and then EDITED (a demand standard deviation changed) is the edited instance: solving it gives what a
+	# fresh build of the edited data gives
+	try:
+		l_ed = [l for l in labels if own[l]][0]
+		with warnings.catch_warnings():
+			warnings.simplefilter('ignore')
+			pre2 = gsm_tree.preprocess_tree(build())
+			pre2.nodes_by_index[l_ed].demand_source.standard_deviation = sd[l_ed] + 3
+			cst4, cost4 = gsm_tree.optimize_committed_service_times(pre2)
+			sd_keep = sd[l_ed]; sd[l_ed] = sd_keep + 3
+			try:
+				cst5, cost5 = gsm_tree.optimize_committed_service_times(build())
+			finally:
+				sd[l_ed] = sd_keep
+		rep.count('tree:preprocessed-then-edited')
+		if not close(cost4, cost5):
+			bad.append('pre-processed tree whose demand sd at stage %s was then changed to %s: cost %r, the same data built afresh %r' % (l_ed, sd_keep + 3, cost4, cost5))
+	except Exception as e:
+		bad.append('pre-processed-then-edited tree raised %s' % err_enum(e))
 	if bad:
 		rep.diff('gsm_tree', '; '.join(bad[:3]), case, py={'cst': {str(k): v for k, v in cst.items()}, 'cost': cost}, model=ev, oracle=True, theorem=THEOREM)
 
